@@ -18,22 +18,27 @@ def ctor_field_of_param(prog: Program, ci: ClassInfo) -> Dict[str, str]:
     if init is None:
         return out
     params = {p.arg for p in init.params[1:]}
-    def one(tg: ast.expr, v: ast.expr) -> None:
+    def one(tg: ast.expr, v: ast.expr, direct: bool) -> None:
         if isinstance(tg, (ast.Tuple, ast.List)) and isinstance(v, (ast.Tuple, ast.List)) and len(tg.elts) == len(v.elts):
             for t_, v_ in zip(tg.elts, v.elts):      # self._a, self._b = a, b
-                one(t_, v_)
+                one(t_, v_, direct)
             return
         if isinstance(tg, ast.Attribute) and isinstance(tg.value, ast.Name) and tg.value.id == 'self':
-            names = [v.id] if isinstance(v, ast.Name) else \
-                [x.id for x in ast.walk(v) if isinstance(x, ast.Name)] if isinstance(v, (ast.BoolOp, ast.IfExp)) else []
+            if direct:
+                names = [v.id] if isinstance(v, ast.Name) else []
+            else:
+                names = [x.id for x in ast.walk(v) if isinstance(x, ast.Name)] if isinstance(v, (ast.BoolOp, ast.IfExp)) else []
+                names = names[:1]        # `self.name = name or method.__name__`: the attribute receives the FIRST alternative
             for nm in names:
                 if nm in params and nm not in out:
                     out[nm] = tg.attr
-    for st in walk_own(init.node):
-        if isinstance(st, ast.Assign) and len(st.targets) == 1:
-            one(st.targets[0], st.value)
-        elif isinstance(st, ast.AnnAssign) and st.value is not None:
-            one(st.target, st.value)
+    stmts = sorted((st for st in walk_own(init.node) if isinstance(st, (ast.Assign, ast.AnnAssign))), key=lambda st: (st.lineno, st.col_offset))
+    for direct in (True, False):         # plain `self.x = param` first, conditional / defaulted forms second
+        for st in stmts:
+            if isinstance(st, ast.Assign) and len(st.targets) == 1:
+                one(st.targets[0], st.value, direct)
+            elif isinstance(st, ast.AnnAssign) and st.value is not None:
+                one(st.target, st.value, direct)
     return out
 
 
